@@ -30,7 +30,19 @@ DownScript(sh, d, n, w) ==
   [nodes |-> sh.nodes, pool |-> sh.pool, use_delay_ms |-> d,
    steps |-> Req(2) \o <<[op |-> "stop", node |-> n]>> \o Sleep(w) \o <<[op |-> "use", ks |-> "ks1"]>> \o Req(4) \o <<[op |-> "start", node |-> n]>>
              \o Sleep(30) \o Req(8) \o Sleep(400) \o Req(8) \o Sleep(1500) \o Req(8)]
+\* a node rejects the first USE (e.g. it does not know the keyspace yet): the call fails; the caller retries with the same name
+RejectScript(sh, k) ==
+  [nodes |-> sh.nodes, pool |-> sh.pool, use_delay_ms |-> 0, use_reject |-> k,
+   steps |-> Req(2) \o <<[op |-> "use", ks |-> "ks1"], [op |-> "use", ks |-> "ks1"]>> \o Req(8) \o Sleep(100) \o Req(8)
+             \o <<[op |-> "use", ks |-> "ks2"]>> \o Req(8)]
+\* one node answers USE only long after the connection timeout: the call must not report success while that node's
+\* connections are still outside the keyspace
+SlowScript(sh, n) ==
+  [nodes |-> sh.nodes, pool |-> sh.pool, use_delay_ms |-> 0, slow_use_node |-> n, slow_use_ms |-> 1200, conn_timeout_ms |-> 300,
+   steps |-> Req(2) \o <<[op |-> "use", ks |-> "ks1"]>> \o Req(12) \o Sleep(100) \o Req(12) \o Sleep(1500) \o Req(6)]
 Init == \/ \E sh \in Shapes : \E d \in {0, 30, 80} : \E x \in Disrupt : \E y \in Disrupt : c = [t |-> "script", s |-> Script(sh, d, x, y)]
+        \/ \E sh \in Shapes : \E k \in {1, 2} : c = [t |-> "script", s |-> RejectScript(sh, k)]
+        \/ \E sh \in Shapes : \E n \in {0, 1} : c = [t |-> "script", s |-> SlowScript(sh, n)]
         \/ \E sh \in Shapes : \E d \in {0, 30} : \E w \in {50, 300} : c = [t |-> "script", s |-> DownScript(sh, d, 1, w)]
         \/ \E nm \in {n \in Names : Len(n) = 0 \/ \A i \in DOMAIN n : TRUE} : \E cs \in {0, 1} : c = [t |-> "name", name |-> nm, cs |-> cs]
 Next == UNCHANGED c
